@@ -421,7 +421,7 @@ def evaluate_z3_or(
 def evaluate_z3_eq(
     expr: z3.ExprRef, children_results: Tuple[Z3EvalResult, ...]
 ) -> Maybe[Z3EvalResult]:
-    if not z3.is_eq(expr):
+    if not z3.is_eq(expr) or z3.is_re(expr.children()[0]):
         return Nothing
 
     return Some(construct_result(lambda args: args[0] == args[1], children_results))
